@@ -1829,10 +1829,15 @@ func tweakPolicy(p *conf_v1.Policy, g int) {
 	}
 }
 
+// snapshot copies the files with their lines sorted: the order of some generated blocks (e.g. the maps of
+// several APIKey policies) follows Go map iteration and differs between two generations of the same input
+// (that is C09's subject, not C15's); a stale server, secret path or policy changes the multiset of lines.
 func snapshot(m map[string]string) map[string]string {
 	out := make(map[string]string, len(m))
 	for k, v := range m {
-		out[k] = v
+		ls := strings.Split(v, "\n")
+		sort.Strings(ls)
+		out[k] = strings.Join(ls, "\n")
 	}
 	return out
 }
@@ -1890,7 +1895,27 @@ func oneEvent(c *Case, resKey, kind, key, op string) (ev EvObs) {
 		ev.Err = "regenerate: " + err.Error()
 		return ev
 	}
-	ev.Stale = !reflect.DeepEqual(after, w.mgr.files)
+	regen := snapshot(w.mgr.files)
+	ev.Stale = !reflect.DeepEqual(after, regen)
+	if ev.Stale && os.Getenv("VERIF_C15_DEBUG") != "" {
+		for k, v := range regen {
+			if after[k] != v {
+				a, b := strings.Split(after[k], "\n"), strings.Split(v, "\n")
+				for i := 0; i < len(a) || i < len(b); i++ {
+					var x, y string
+					if i < len(a) {
+						x = a[i]
+					}
+					if i < len(b) {
+						y = b[i]
+					}
+					if x != y {
+						fmt.Fprintf(os.Stderr, "DEBUG %s %s %s %s line %d:\n  after-event: %s\n  regenerated: %s\n", kind, key, op, k, i, x, y)
+					}
+				}
+			}
+		}
+	}
 	return ev
 }
 
